@@ -802,6 +802,12 @@ def bad_value_pairs(rng, ctx, k):
         rv = S.rand_value(rng, sc, kind, code, count)
         py = RV.to_python(rv)
         c = rng.random()
+        if kind == "bool" and re.search(r"\.\d+$", req) and c < 0.5:
+            # a bit beyond the integer's width does not exist: refused, nothing changes
+            a = addressed(ctx["ref"], sc, req, ("b", True), ctx["cache"])
+            if a is not None:
+                out.append((req.rsplit(".", 1)[0] + "." + str(rng.choice([8, 16, 32, 64, 70]) * 8), True, None))
+                continue
         if kind == "bool":
             # any Python value is a BOOL through its truthiness: there is no unencodable value
             py = rng.choice(["text", 7, [0], 0.5])
@@ -949,15 +955,28 @@ def corr_rmw(R, mp, rng, n):
         bits = [(rng.randrange(top) if rng.random() < 0.95 else rng.randrange(64), rng.random() < 0.5) for _ in range(k)]
         old = rng.randrange(1 << (8 * size))
         cases.append((tname, size, bits, old))
-        lines.append(f"rmw {1 if tname == 'DWORD' else 0}" + "".join(f" {b} {1 if v else 0}" for b, v in bits))
-        eff = [(b % 32 if tname == "DWORD" else b, v) for b, v in bits]
+        acc = [(b, v) for b, v in bits if 0 <= (b % 32 if tname == "DWORD" else b) < 8 * size]   # the others are refused (RequestError)
+        lines.append(f"rmw {1 if tname == 'DWORD' else 0}" + "".join(f" {b} {1 if v else 0}" for b, v in acc))
+        eff = [(b % 32 if tname == "DWORD" else b, v) for b, v in acc]
         lines.append(f"specbits {old}" + "".join(f" {b} {1 if v else 0}" for b, v in eff))
     outs = mp.batch(lines)
     for j, (tname, size, bits, old) in enumerate(cases):
         info = {"tag_type": "atomic", "data_type_name": tname, "data_type": tname, "instance_id": 5}
         pk = ReadModifyWriteRequestPacket(1, "x", info, -1, True)
+        from pycomm3.exceptions import RequestError as _RE
+        kept = []
         for i, (b, v) in enumerate(bits):
-            pk.set_bit(b, v, i)
+            e = b % 32 if tname == "DWORD" else b
+            try:
+                pk.set_bit(b, v, i)
+                ok_ = True
+            except _RE:
+                ok_ = False
+            if ok_ != (0 <= e < 8 * size):
+                R.fail("set_bit accepts a bit outside the tag's width / refuses one inside", {"type": tname, "bit": b}, ok_, not ok_, "rmw:bit-range")
+            if ok_:
+                kept.append((b, v))
+        bits = kept
         m = fw.parse_line(outs[2 * j])
         spec_new = fw.parse_line(outs[2 * j + 1])[0]
         R.case(("rmw", tname, tuple(bits)), nontrivial=True)
